@@ -33,6 +33,24 @@ class Res(wiring.Component):
         super().__init__({})
 
 
+class GrowingMap(MemoryMap):
+    """A project's own MemoryMap subclass that lays out one more resource when it is sealed (an ID register appended
+    by the freeze() hook). The name it adds is unique, so it conflicts with nothing at that moment."""
+    counter = [0]
+
+    def freeze(self):
+        if not getattr(self, "_grown", False) and not getattr(self, "_frozen", False):
+            self._grown = True
+            GrowingMap.counter[0] += 1
+            self.hook_res = Res()
+            self.hook_name = ("hook", GrowingMap.counter[0])
+            try:
+                self.hook_range = self.add_resource(self.hook_res, name=self.hook_name, size=1)
+            except ValueError:
+                self.hook_res = None          # no room left: sealed as it is
+        super().freeze()
+
+
 class EqRes(wiring.Component):
     """A resource class with value equality (instances of one peripheral type that compare equal): the memory map
     identifies resources by identity."""
@@ -109,11 +127,11 @@ def run_case(case):
     for lv, n in enumerate(case["maps_per_level"]):
         for _ in range(n):
             aw = 5 * (lv + 1)
-            lives.append(MemoryMap(addr_width=aw, data_width=8))
+            lives.append((GrowingMap if (lv < 2 and rng.random() < 0.2) else MemoryMap)(addr_width=aw, data_width=8))
             models.append(MapModel(aw, 8, 0, label=f"L{lv}M{len(lives) - 1}"))
             level.append(lv)
     used_as_window = set()
-    st = {"prefix_refusal": False, "sibling_accept": False, "keep": []}
+    st = {"prefix_refusal": False, "sibling_accept": False, "keep": [], "hook_names": []}
 
     def snapshot(t):
         # align_to(0) reports the placement cursor without moving it (the maps here have alignment 0)
@@ -202,6 +220,15 @@ def run_case(case):
                     check_paths(t, why)
                     continue
                 if judge(t, pred, raised, name, why, before):
+                    grown = lives[c]
+                    if isinstance(grown, GrowingMap) and getattr(grown, "hook_res", None) is not None and \
+                            id(grown.hook_res) not in models[c].keys:
+                        # the window's freeze() hook added a resource while it was being attached: it is part of the
+                        # window now, and (through an anonymous window) one of the parent's visible names
+                        models[c].commit_resource(id(grown.hook_res), grown.hook_name, grown.hook_range[0], grown.hook_range[1])
+                        st["keep"].append(grown.hook_res)
+                        st["hook_names"].append(grown.hook_name)
+                        mon.count("resources_added_by_a_freeze_hook")
                     mm.commit_window(id(lives[c]), models[c], name, out[0], out[1], out[2])
                     used_as_window.add(c)
                 else:
@@ -210,6 +237,11 @@ def run_case(case):
                 r = Res() if rng.random() < 0.7 else EqRes(rng.choice(["uart", "timer"]))
                 st["keep"].append(r)
                 name = gen_name(rng)
+                if st["hook_names"] and rng.random() < 0.15:
+                    hn = rng.choice(st["hook_names"])
+                    # equal to / extension of a hook's name (never its first part alone: that would collide with the names
+                    # future hooks add, which add_window() cannot foresee - not a matter for C18)
+                    name = rng.choice([hn, hn + ("x",), hn + (0, "y")])
                 if rng.random() < 0.03:
                     name = rng.choice(["", (), ("a", ""), ("a", -1), None])
                 why = f"{mm.label}.add_resource(name={name!r})"
